@@ -72,6 +72,16 @@ def mayWrite (s : State) (op : Op) (r' : Attribute) : Bool :=
 def appearancesJustified (s : State) (op : Op) (s' : State) : Bool :=
   s'.recs.all (fun r' => s.recs.contains r' || mayWrite s op r')
 
+/-- Clause 2, the deletion of a name: after an accepted `MsgDeleteName` no attribute is stored under
+the (normalised) name any more, on any account (theorem `deleteName_purges_exactly`).  An attribute
+left under a name that nobody owns can be deleted by anybody (`DeleteAttribute` cannot check the
+owner of a name that does not exist) and is inherited by whoever binds the name next: "only the
+current owner of a name deletes attributes under it" is lost with it. -/
+def namePurged (op : Op) (s' : State) : Bool :=
+  match op with
+  | .deleteName _ name => s'.recs.all (fun r => decide (r.name ≠ name))
+  | _ => true
+
 /-- Clause 3: after a block begins at time `t` no stored attribute has an expiration before `t`. -/
 def expiredGone (t : Nat) (s' : State) : Bool :=
   s'.recs.all (fun r => match r.exp with | some e => decide (t ≤ e) | none => true)
@@ -193,6 +203,7 @@ def verdictCap (cap : Nat) (s : State) (op : Op) (accepted : Bool) (s' : State) 
   else if !writerIsOwner s op then "fail:write_by_non_owner"
   else if !lookupComplete s' then "fail:lookup_omits_holder"
   else if !appearancesJustified s op s' then "fail:record_written_without_owner_message"
+  else if !namePurged op s' then "fail:name_deleted_attributes_remain"
   else
     match s.recs.find? (fun r => !(hasKey s' r.key || justified s op r)) with
     | some r =>
